@@ -214,6 +214,8 @@ def evaluate_case(ast, doc, model):
     ref = run_ref(doc, ast)
     a_ref, a_mod = agree(real, ref), agree(real, model)
     info = dict(text=text, real=real, ref=ref, model=model)
+    if real[0] == 'err' and real[1] in ('RecursionError', 'MemoryError'):
+        return None, info                  # a limit of the host interpreter, not a meaning
     where = '%s on %s' % (text, json.dumps(evalgen.to_host(doc), sort_keys=True))
     if a_ref is False and a_mod is not True:
         return ('oracle', '%s: real %s, reference %s (model: %s)' % (where, show(real), show(ref), show(model))), info
@@ -240,6 +242,9 @@ PROBES = [
     ('wrong $', "[1, 2].select([10, 20].select($ + 1).toList() + [$])", [[11, 21, 1], [11, 21, 2]]),
     ('wrong $', "[3, 4].aggregate($1 * 10 + $2, 0)", 34),
     ('wrong $', "[5, 6].unpack() -> [$1, $2, $]", [5, 6, 5]),
+    ('wrong $', "def(f, [$1, $2, $k]) -> [f(1, 2), f(3), f(4, k => 5), f()]",
+     [[1, 2, None], [3, None, None], [4, None, 5], [{}, None, None]]),
+    ('wrong $', "def(g, [$, $ > 0 and g($ - 1), $]) -> g(2)", [2, [1, [0, False, 0], 1], 2]),
     ('dynamic instead of lexical closure', "let(k => 1) -> def(f, $k) -> let(k => 2) -> f()", 1),
     ('dynamic instead of lexical closure', "let(k => 1) -> def(f, [$k, $]) -> [5, 6].select(f($ * 2))", [[1, 10], [1, 12]]),
     ('dynamic instead of lexical closure', "def(f, $) -> with(9) -> f(4)", 4),
@@ -449,9 +454,9 @@ def run(env, res):
     t0 = time.time()
     n_probe = fixed_battery(drv, res)
     if tier == 'quick':
-        nproc, per, depth = 4, 1100, 4
+        nproc, per, depth = 4, 4000, 4
     else:
-        nproc, per, depth = 10, 7000, 6
+        nproc, per, depth = 10, 22000, 6
     jobs = [(i, per, env['seed'], depth, use_model) for i in range(nproc)]
     with multiprocessing.Pool(nproc) as pool:
         results = pool.map(work, jobs, chunksize=1)
